@@ -175,6 +175,134 @@ def gen_defs(spt, salt=0):
             out.append(Def('ab_%s_uy' % kind, args + ['t'], node(u.imag), 'Arc.u1transform(%s.point(t)).imag' % kind, env))
             return out
         defs += retry(job_ab, 'c11/ab/%s' % kind + sfx)
+
+    # ---- Arc.intersect(Arc), both circular and unrotated: the two candidate points of the generic case -------------
+    def job_cc(r):
+        env = {}
+        sc = Fr(r.randint(1, 4), r.choice([1, 2]))
+        c0 = (rfrac(r), rfrac(r))
+        off = r.choice([(Fr(42, 5), Fr(56, 5)), (Fr(56, 5), Fr(-42, 5)), (Fr(-14), Fr(0)), (Fr(0), Fr(14))])
+        c1 = (c0[0] + off[0] * sc, c0[1] + off[1] * sc)
+        env.update({'r0': 13 * sc, 'r1': 15 * sc, 'd': 14 * sc, 'h': 12 * sc})
+        r0, r1 = st.R.var('r0', env['r0']), st.R.var('r1', env['r1'])
+        dvar, hvar = st.R.var('d', env['d']), st.R.var('h', env['h'])
+
+        def mk(center, rad, start):
+            a = P.Arc.__new__(P.Arc)
+            a.rotation = 0.0
+            a.radius = st.Cx(rad, rad)
+            a.center = center
+            a.start, a.end, a.large_arc, a.sweep = start, start + 1, False, True
+            return a
+        a0 = mk(_cx('p0', c0[0], c0[1], env), r0, 1 + 2j)
+        a1 = mk(_cx('p1', c1[0], c1[1], env), r1, 5 - 3j)
+        rec = {'pts': [], 'sq': []}
+        saved = (P.np.isclose, P.sqrt, st.Cx.__abs__, P.Arc.point_to_t)
+
+        def my_sqrt(x):
+            rec['sq'].append(x)
+            return hvar
+
+        def my_pt(self, p):
+            rec['pts'].append(p)
+            return None
+        try:
+            P.np.isclose = lambda *a, **k: False
+            P.sqrt = my_sqrt
+            st.Cx.__abs__ = lambda self: dvar
+            P.Arc.point_to_t = my_pt
+            P.complex = lambda x, y: st.Cx(x, y)      # shadows the builtin inside svgpathtools.path only
+            res = P.Arc.intersect(a0, a1)
+        finally:
+            P.np.isclose, P.sqrt, st.Cx.__abs__, P.Arc.point_to_t = saved
+            if hasattr(P, 'complex'):
+                del P.complex
+        assert res == [] and len(rec['sq']) == 1 and len(rec['pts']) == 4, (res, len(rec['sq']), len(rec['pts']))
+        args = ['p0x', 'p0y', 'p1x', 'p1y', 'r0', 'r1', 'd', 'h']
+        p30, p31 = rec['pts'][0], rec['pts'][2]
+        return [Def('cc_hsq', args[:7], node(rec['sq'][0]), 'Arc.intersect(Arc), two circles: the argument of sqrt, r0^2 - a^2 (d stands for abs(p0 - p1))', env),
+                Def('cc_p30x', args, node(p30.real), 'two circles: first candidate point p30 (h stands for the square root)', env),
+                Def('cc_p30y', args, node(p30.imag), 'two circles: p30.imag', env),
+                Def('cc_p31x', args, node(p31.real), 'two circles: second candidate point p31', env),
+                Def('cc_p31y', args, node(p31.imag), 'two circles: p31.imag', env)]
+    defs += retry(job_cc, 'c11/cc' + sfx)
+
+    # ---- Arc.intersect(Line), unrotated arc, non-vertical line: the candidate coordinates --------------------------------
+    def job_al(r):
+        env = {}
+        # ellipse x^2/a^2 + y^2/b^2 = 1 (centre c), line through two of its rational points
+        a_, b_ = Fr(r.randint(1, 5)), Fr(r.randint(1, 5), 2)
+        c = (rfrac(r), rfrac(r))
+        u = r.sample([(Fr(3, 5), Fr(4, 5)), (Fr(5, 13), Fr(12, 13)), (Fr(-8, 17), Fr(15, 17)), (Fr(-3, 5), Fr(-4, 5)), (Fr(12, 13), Fr(-5, 13))], 2)
+        q0 = (c[0] + a_ * u[0][0], c[1] + b_ * u[0][1])
+        q1 = (c[0] + a_ * u[1][0], c[1] + b_ * u[1][1])
+        # extend the chord beyond both points
+        l0 = (q0[0] - (q1[0] - q0[0]) / 3, q0[1] - (q1[1] - q0[1]) / 3)
+        l1 = (q1[0] + (q1[0] - q0[0]) / 2, q1[1] + (q1[1] - q0[1]) / 2)
+        arc = P.Arc.__new__(P.Arc)
+        arc.rotation = 0
+        env['a'], env['b'] = a_, b_
+        arc.radius = st.Cx(st.R.var('a', a_), st.R.var('b', b_))
+        arc.center = _cx('c', c[0], c[1], env)
+        line = P.Line(_cx('l0', l0[0], l0[1], env), _cx('l1', l1[0], l1[1], env))
+        rec = {'pts': [], 'sq': []}
+        saved = (P.sqrt, P.Arc.point_to_t)
+        had_complex = hasattr(P, 'complex')
+
+        def my_sqrt(x):
+            rec['sq'].append(x)
+            sv = st._exact_sqrt(x.val)
+            assert sv is not None, x.val
+            env['s'] = sv
+            return st.R.var('s', sv)
+
+        def my_pt(self, p):
+            rec['pts'].append(p)
+            return None
+        try:
+            P.sqrt = my_sqrt
+            P.Arc.point_to_t = my_pt
+            P.complex = lambda x, y: st.Cx(x, y)
+            res = P.Arc.intersect(arc, line)
+        finally:
+            P.sqrt, P.Arc.point_to_t = saved
+            if not had_complex:
+                del P.complex
+        assert res == [] and len(rec['sq']) == 1 and len(rec['pts']) == 4, (res, len(rec['sq']), len(rec['pts']))
+        args = ['a', 'b', 'cx', 'cy', 'l0x', 'l0y', 'l1x', 'l1y']
+        pts = rec['pts']      # order: (x1,y1), (x1,y2), (x2,y1), (x2,y2), each + center
+        return [Def('al_disc', args, node(rec['sq'][0]), 'Arc.intersect(Line), unrotated arc, non-vertical line: the discriminant (argument of sqrt)', env),
+                Def('al_p11x', args + ['s'], node(pts[0].real), 'candidate (x1, y1) + center, real part (s stands for sqrt(discriminant))', env),
+                Def('al_p11y', args + ['s'], node(pts[0].imag), 'candidate (x1, y1) + center, imaginary part', env),
+                Def('al_p22x', args + ['s'], node(pts[3].real), 'candidate (x2, y2) + center, real part', env),
+                Def('al_p22y', args + ['s'], node(pts[3].imag), 'candidate (x2, y2) + center, imaginary part', env)]
+    defs += retry(job_al, 'c11/al' + sfx)
+
+    # ---- Line.point_to_t ----------------------------------------------------------------------------------------------------
+    def job_lpt(r):
+        env = {}
+        s0, e0 = (rfrac(r), rfrac(r)), (rfrac(r), rfrac(r))
+        t0 = Fr(r.randint(1, 6), 7)
+        pt = (s0[0] + t0 * (e0[0] - s0[0]), s0[1] + t0 * (e0[1] - s0[1]))
+        line = P.Line(_cx('s', s0[0], s0[1], env), _cx('e', e0[0], e0[1], env))
+        point = _cx('z', pt[0], pt[1], env)
+        rec = {'calls': []}
+        saved = P.np.isclose
+
+        def my_isclose(x, y, *a, **k):
+            rec['calls'].append(x)
+            return len(rec['calls']) == 3          # not start, not end; the imaginary part "is close to 0"
+        try:
+            P.np.isclose = my_isclose
+            with allow_eq():
+                t = line.point_to_t(point)
+        finally:
+            P.np.isclose = saved
+        assert len(rec['calls']) == 3 and t.val == t0, (len(rec['calls']), t.val)
+        args = ['sx', 'sy', 'ex', 'ey', 'zx', 'zy']
+        return [Def('lpt_t', args, node(t), 'Line.point_to_t(point): the returned parameter t.real', env),
+                Def('lpt_im', args, node(rec['calls'][2]), 'Line.point_to_t(point): t.imag, the quantity tested with np.isclose(., 0)', env)]
+    defs += retry(job_lpt, 'c11/lpt' + sfx)
     return defs
 
 
